@@ -118,7 +118,85 @@ def run_steps(s, u, steps, res, case, judge_touched=True):
     return True
 
 
+def case_longchain(case, res):
+    '''A long chain of unconfirmed transactions (each spends the previous one) becomes visible in
+    ONE refresh, examined in the given order and batching; the first completed refresh must hold
+    all of it.'''
+    from vf.chain import Tx
+    u = mpuniverse.universe()
+    L, order, chunk = case['length'], case['order'], case['chunk']
+    ref = mpuniverse.RefIndex(u.sim.blocks, ACT)
+    op, (script0, value, _h, _n) = max(((o, d) for o, d in ref.utxos.items()
+                                        if d[0] == SCRIPTS['A']), key=lambda kv: kv[1][1])
+    chain_txs = []
+    prev, v = op, value
+    for i in range(L):
+        v -= 10
+        t = Tx([(prev[0], prev[1], b'\x01\x51', 0xffffffff)], [(v, SCRIPTS['B' if i % 2 else 'A'])])
+        chain_txs.append(t)
+        prev = (t.txid, 0)
+    pos = {t.txid: i for i, t in enumerate(chain_txs)}
+    import electrumx.server.mempool as mpmod
+    from electrumx.lib.util import chunks as orig_chunks
+
+    def chunks(items, size):
+        if size != 200:
+            return orig_chunks(items, size)
+        seq = sorted(items, key=lambda h: pos.get(bytes(h), 0), reverse=(order == 'children-first'))
+        if order == 'interleaved':
+            seq = seq[::2] + seq[1::2][::-1]
+        return (seq[i:i + chunk] for i in range(0, len(seq), chunk))
+    s = system.System(reorg_limit=5, activation=ACT)
+    try:
+        mpmod.chunks = chunks
+        s.boot(u.sim.blocks)
+        reports = []
+        inner = s.notifications.on_mempool
+
+        async def on_mempool(touched, height):
+            reports.append(set(touched))
+            return await inner(touched, height)
+        s.notifications.on_mempool = on_mempool
+        s.mempool.api.on_mempool = on_mempool
+        s.daemon.set_mempool(chain_txs)
+        for _ in range(4):
+            s.advance(5.5)
+            if reports:
+                break
+        res.count('longchain_executions')
+        bad = None
+        if s.check_tasks():
+            bad = ('server-task-ended', dict(tasks=s.check_tasks()))
+        elif not reports:
+            bad = ('no-refresh-completed', {})
+        else:
+            have = set(s.mempool.txs)
+            missing = [pos[t.txid] for t in chain_txs if t.txid not in have]
+            if missing:
+                bad = ('long-chain:transactions-missing-after-the-first-refresh',
+                       dict(missing=len(missing), first_missing_level=min(missing)))
+            else:
+                want = {SCRIPTS['A']: -value + sum(t.outputs[0][0] for i, t in enumerate(chain_txs)
+                                                    if i % 2 == 0) - sum(
+                    chain_txs[i - 1].outputs[0][0] for i in range(1, L) if (i - 1) % 2 == 0),
+                        SCRIPTS['B']: sum(t.outputs[0][0] for i, t in enumerate(chain_txs) if i % 2)
+                        - sum(chain_txs[i - 1].outputs[0][0] for i in range(1, L) if (i - 1) % 2)}
+                for scr, w_ in want.items():
+                    got = s.loop.run_coro(s.mempool.balance_delta(script_hashX(scr)), fire_timers=False)
+                    if got != w_:
+                        bad = ('long-chain:balance_delta', dict(script=scr.hex(), got=got, want=w_))
+                if not bad and not {script_hashX(SCRIPTS['A']), script_hashX(SCRIPTS['B'])} <= reports[0]:
+                    bad = ('long-chain:touched-set-misses-script', {})
+        if bad:
+            res.violation(bad[0], case, dict(case, **bad[1]))
+    finally:
+        mpmod.chunks = orig_chunks
+        s.close()
+
+
 def run_case(case, res):
+    if 'length' in case:
+        return case_longchain(case, res)
     u = mpuniverse.universe()
     s = system.System(reorg_limit=5, activation=ACT)
     try:
@@ -171,6 +249,11 @@ def cases_for(tier):
             variants = [variants[n % 6], variants[(n + 4) % 6]]
         for order, chunk in variants:
             cases.append(dict(steps=[[list(a), list(b)] for a, b in steps], order=order, chunk=chunk))
+    # chains of unconfirmed transactions far longer than the universe's
+    for length in (5, 26, 27, 60) if tier == 'quick' else (5, 25, 26, 27, 28, 60, 150):
+        for order in ('parents-first', 'children-first', 'interleaved'):
+            for chunk in (200, 7, 1):
+                cases.append(dict(length=length, order=order, chunk=chunk))
     return cases
 
 
@@ -191,6 +274,7 @@ def run(tier, seed, started):
                  'reached and compared'),
         'refresh_steps_compared': c['refresh_steps'],
         'executions_with_confirming_block': c['executions_with_confirming_block'],
+        'long_chain_executions': c.get('longchain_executions', 0),
         'exhaustive': True, 'bounds': {'tier': tier, 'cases': len(cases)},
     }
     assumptions = ['the chunking helper is replaced by a partitioner (batches of 1, 2 or all) so that '
